@@ -213,6 +213,22 @@ pub fn exec(case: &[i64]) -> Outcome {
       if !has || mode == 2 { o = o.trivial(); }
       o
     }
+    // 5: a DENSE list (entries set by a fixed pseudo-random rule, so the gzip stream is long): [5, n, a, b] sets entry i when a 64-bit mix of i * a + b is odd.
+    //    Oracle only: the encoded form decodes to the identical list; reading back every entry gives the rule
+    5 => {
+      let (n, a, b) = (v[0] as usize, v[1] as u64, v[2] as u64);
+      let mut l = match StatusList2021::new(n) { Ok(l) => l, Err(_) => return Outcome::new(vec![-5555]).class("dense-new-err").trivial() };
+      let rule = |i: usize| { let mut z = (i as u64).wrapping_mul(a).wrapping_add(b).wrapping_add(0x9E3779B97F4A7C15); z = (z ^ (z >> 30)).wrapping_mul(0xBF58476D1CE4E5B9); z = (z ^ (z >> 27)).wrapping_mul(0x94D049BB133111EB); (z ^ (z >> 31)) & 1 == 1 };
+      for i in 0..l.len() { if rule(i) { if l.set(i, true).is_err() { return Outcome::new(vec![-5555]).class("dense").fail("in-range set refused"); } } }
+      let enc = l.clone().into_encoded_str();
+      let mut o = Outcome::new(vec![-5555]).class("dense");
+      match StatusList2021::try_from_encoded_str(&enc) {
+        Err(_) => { o = o.fail("a list does not decode from its own encoded form"); }
+        Ok(d) => { if d.len() != l.len() { o = o.fail("the decoded list has another length than the encoded one"); } else if d != l { o = o.fail("the decoded list differs from the encoded one"); }
+                   else { for i in (0..d.len()).step_by(997).chain(d.len().saturating_sub(64)..d.len()) { if d.get(i).ok() != Some(rule(i)) { o = o.fail("an entry of the decoded list differs from what was written"); break; } } } }
+      }
+      o
+    }
     _ => Outcome::new(vec![-998]).fail("bad case kind"),
   }
 }
@@ -228,6 +244,8 @@ pub fn gen(rng: &mut Rng, thorough: bool, sink: &mut Sink) {
   } } } } } } }
   // (c) constructor sizes
   for n in [0i64, 1, 131071, 131072, 131073, 131079, 131080, 131081, 1 << 20, (1 << 20) + 1, (1 << 20) + 9, 1 << 21, 3_000_001, (8 << 20) - 8, 8 << 20, (8 << 20) + 1, (8 << 20) + 9, 10_000_001, 1 << 24] { sink.case(vec![2, n, 1, n - 1, 1, n, 1, n + 7, 1, n + 8, 0, n - 1, 1, 0, n + 8, 1], "sizes"); }
+  // (c') dense lists of several sizes (long compressed streams)
+  for (n, a, b) in [(131072i64, 2654435761i64, 12345i64), (600_000, 2654435761, 7), (1 << 20, 40503, 99), (1_048_583, 2246822519, 3), (3_000_001, 2654435761, 1)] { sink.case(vec![5, n, a, b], "dense-list"); }
   // (d) write sequences clustered inside bytes and at both ends
   let nseq = if thorough { 6000 } else { 600 };
   for k in 0..nseq {
